@@ -4,6 +4,9 @@ CHECK = {
         "C08a: the OCC reference model in harness/storagex/c08_txn_test.go; a conflict reported for a blind write or after an ABA rewrite, and an ABA transaction committing, are allowed by the statement",
         "C08a: Commit of a transaction without writes (read-only or write-less) is not required to verify its reads (documented: equivalent to Rollback)",
         "PostgreSQL backend: no database server in the sandbox",
+        "raft-live: single-node cluster; every started write is waited for until raft has committed it, so each FSM batch holds one entry and the log order equals the action order",
+        "raft-live: observations are the values and listings handed to the caller; blind writes (conservatively verified by the backend) are not observations, so a false conflict on them is allowed",
+        "raft-live: no chunked (> 256 KiB) entries, no empty values (an empty value hashes like an absent key)",
     ],
     "units": [
         unit("storagex-txn", "storagex", ["storagex/model_test.go", "storagex/c08_txn_test.go"], "^TestVerif_C08_Txn$",
@@ -11,5 +14,12 @@ CHECK = {
              thorough={"checks": 20000, "shards": 16, "cap": 2400}, no_ulimit=True,
              floors={"txn-inmem": {"nontrivial": 0.06}, "txn-inmem+cache": {"nontrivial": 0.06}, "txn-inmem+barrier": {"nontrivial": 0.06},
                      "txn-inmem+cache+encoding+barrier+barrierview": {"nontrivial": 0.06}}),
+        unit("raft-live", "raft", ["raft/c08_live_test.go"], "^TestVerif_C08_RaftLive$",
+             quick={"checks": 20000, "shards": 1, "cap": 600},
+             thorough={"checks": 60000, "shards": 16, "cap": 1800},
+             no_ulimit=True,
+             # MAP_POPULATE of the 16 MB initial bolt mapping only costs kernel time
+             env={"BAO_RAFT_DISABLE_MAP_POPULATE": "1"},
+             floors={"raft-live": {"nontrivial": 0.04}}),
     ],
 }
